@@ -27,14 +27,14 @@ ASSUMPTIONS = ['Fraction arithmetic is exact; inputs are handed over as mpf valu
                '2^12*sqrt(tol)*max(1,|x|) of x (worst case of a quadratic with nearly double root: |t-u|^2 <= |P(t)|/|c|; inverse '
                'transforms have Lipschitz constant <= 2^5 and ||(t, constants)|| <= 2^7 in the envelope)',
                'formulas are evaluated by the reference release (mpmath 1.3.0) at 2p+200 bits through an ast whitelist']
-LEVEL_TEXT = ('exploration: ~10^4 (quick) / ~10^5 (thorough) generated pslq / findpoly / identify calls on the real code; every returned '
+LEVEL_TEXT = ('exploration: ~9*10^3 (quick) / ~4.5*10^4 (thorough) generated pslq / findpoly / identify calls on the real code; every returned '
               'object checked exactly against the exact inputs')
 LEVEL_NOTE = 'inputs not generated are not covered; None results outside the planted envelope are not asserted'
 TECHNIQUE = 'runtime result monitor: exact rational re-verification of every returned relation; restricted evaluator for identify formulas'
 SHARD_TIMEOUT = {'quick': 1800, 'thorough': 7200}
 
 NSHARDS = 16
-COUNTS = {'quick': {'pslq': 420, 'findpoly': 90, 'identify': 40}, 'thorough': {'pslq': 4000, 'findpoly': 800, 'identify': 320}}
+COUNTS = {'quick': {'pslq': 420, 'findpoly': 90, 'identify': 40}, 'thorough': {'pslq': 2200, 'findpoly': 450, 'identify': 180}}
 PRECS = [53, 64, 80, 100, 113, 150, 200, 250, 300]
 CONSTS = ['pi', 'e', 'ln2', 'sqrt2', 'sqrt3', 'catalan', 'euler', 'phi', 'ln3', 'cbrt2']
 
